@@ -200,11 +200,14 @@ func ParseStreamHeader(data []byte) (h StreamHeader, totalKnown bool, err error)
 		l = uint64(lenNib)
 	}
 	h.Total = uint64(1+extBytes+1+tkl) + l
-	if tkl > 8 {
-		return h, true, ErrTKL
-	}
+	// An incomplete header is reported as "short" even if its TKL nibble is already known to
+	// be invalid: more bytes cannot repair it, but waiting for them is harmless, and this is
+	// the order the library uses. Once the header bytes are there, TKL 9-15 is an error.
 	if len(data) < 1+extBytes+1+tkl {
 		return h, true, ErrShort
+	}
+	if tkl > 8 {
+		return h, true, ErrTKL
 	}
 	h.Code = int(data[1+extBytes])
 	if tkl > 0 {
